@@ -64,7 +64,7 @@ type c13Run struct {
 	idx                                                                                                                         int64
 	ops                                                                                                                         []aop
 	viol                                                                                                                        bool
-	nForged, nCorrective, nReplies, nRejects, nCycles, nRelayed, nAltStarts, nUnicastReq, nConfirms, nStopOtherFamily, nWindows, nClaims int
+	nForged, nCorrective, nReplies, nRejects, nCycles, nRelayed, nAltStarts, nUnicastReq, nConfirms, nStopOtherFamily, nWindows, nClaims, nSharedIP int
 	window                                                                                                                      bool
 }
 
@@ -142,6 +142,12 @@ func (r *c13Run) history() {
 					// the hunted station shows up with another address: StartHunt is keyed (and idempotent) per MAC
 					a.IP = netip.AddrFrom4([4]byte{192, 168, 0, byte(100 + o.T%len(c13Targets))})
 					r.nAltStarts++
+				}
+				if o.P == 2 {
+					// an address that changed hands: this station is hunted under the address the next target has (or had, if
+					// that one's hunt was just stopped); hunts are per MAC, whatever their addresses
+					a.IP = c13Targets[(o.T+1)%len(c13Targets)].IP
+					r.nSharedIP++
 				}
 				if _, err := h.StartHunt(a); err == nil {
 					if _, on := hunted[string(tgt.MAC)]; !on {
@@ -590,6 +596,7 @@ func runC13(c *wk.Ctx) {
 		c.Obs("relayed_requests_mixed_hunt_state", int64(run.nRelayed))
 		c.Obs("router_requests_sent_unicast", int64(run.nUnicastReq))
 		c.Obs("dhcp_confirmations", int64(run.nConfirms))
+		c.Obs("starthunt_under_another_targets_address", int64(run.nSharedIP))
 		c.Obs("router_address_claimed_by_another_station", int64(run.nClaims))
 		c.Obs("histories_with_send_window", int64(run.nWindows))
 		c.Obs("stophunt_with_ipv6_or_no_address", int64(run.nStopOtherFamily))
